@@ -1,0 +1,85 @@
+// Copyright 2023-2026 Buf Technologies, Inc.
+//
+// Licensed under the Apache License, Version 2.0 (the "License");
+// you may not use this file except in compliance with the License.
+// You may obtain a copy of the License at
+//
+//      http://www.apache.org/licenses/LICENSE-2.0
+//
+// Unless required by applicable law or agreed to in writing, software
+// distributed under the License is distributed on an "AS IS" BASIS,
+// WITHOUT WARRANTIES OR CONDITIONS OF ANY KIND, either express or implied.
+// See the License for the specific language governing permissions and
+// limitations under the License.
+
+//go:build verif
+
+package vanguard
+
+import (
+	"bytes"
+	"sync/atomic"
+)
+
+// VerifHooks are observation points used by the runtime-verification harness.
+// They exist only in builds with -tags verif. Every field may be nil.
+type VerifHooks struct {
+	// PoolGet is called with each buffer handed out by the buffer pool.
+	PoolGet func(buf *bytes.Buffer)
+	// PoolPut is called with each buffer returned to the buffer pool. If it
+	// returns true the buffer is withheld from the pool (quarantined).
+	PoolPut func(buf *bytes.Buffer) bool
+	// PoolWrap is called when a marshalled slice is wrapped into a buffer.
+	PoolWrap func(data []byte, orig, result *bytes.Buffer)
+	// CodecGet/CodecPut are called when a compressor ("compress") or
+	// decompressor ("decompress") is taken from / returned to its pool.
+	CodecGet func(pool string, kind string, obj any)
+	CodecPut func(pool string, kind string, obj any)
+	// Point is called at named points between critical sections.
+	Point func(name string)
+}
+
+var verifHooks atomic.Pointer[VerifHooks] //nolint:gochecknoglobals
+
+// VerifSetHooks installs (or, with nil, removes) the verification hooks.
+func VerifSetHooks(h *VerifHooks) { verifHooks.Store(h) }
+
+func verifPoolGet(buf *bytes.Buffer) {
+	if h := verifHooks.Load(); h != nil && h.PoolGet != nil {
+		h.PoolGet(buf)
+	}
+}
+
+func verifPoolPut(buf *bytes.Buffer) bool {
+	if h := verifHooks.Load(); h != nil && h.PoolPut != nil {
+		return h.PoolPut(buf)
+	}
+	return false
+}
+
+func verifPoolWrap(data []byte, orig, result *bytes.Buffer) {
+	if h := verifHooks.Load(); h != nil && h.PoolWrap != nil {
+		h.PoolWrap(data, orig, result)
+	}
+}
+
+func verifCodecGet(p *compressionPool, kind string, obj any) {
+	if h := verifHooks.Load(); h != nil && h.CodecGet != nil {
+		h.CodecGet(p.Name(), kind, obj)
+	}
+}
+
+func verifCodecPut(p *compressionPool, kind string, obj any) {
+	if h := verifHooks.Load(); h != nil && h.CodecPut != nil {
+		h.CodecPut(p.Name(), kind, obj)
+	}
+}
+
+func verifPoint(name string) {
+	if h := verifHooks.Load(); h != nil && h.Point != nil {
+		h.Point(name)
+	}
+}
+
+// verifEnabled reports whether verification hooks are compiled in.
+const verifEnabled = true
